@@ -1069,7 +1069,11 @@ func hashGrow(t *maptype, h *hmap) {
 	newbuckets, nextOverflow := makeBucketArray(t, h.B+bigger, nil)
 
 	flags := h.flags &^ (iterator | oldIterator)
-	if h.flags&iterator != 0 {
+	// A range loop that began before an earlier grow may still be walking
+	// buckets two generations back (same-size grows keep it.B == h.B, so it
+	// even reads h.oldbuckets); keep oldIterator set across grows so that
+	// evacuate never clears keys and elems under such a loop.
+	if h.flags&(iterator|oldIterator) != 0 {
 		flags |= oldIterator
 	}
 	// commit the grow (atomic wrt gc)
